@@ -357,7 +357,7 @@ fn generate(ctx: &mut Ctx) -> Vec<Value> {
 
     // Random histories: random subsets of kids per root version, random
     // expiry, clock steps around the expiry times.
-    let n = ctx.budget(4, 80);
+    let n = ctx.budget(10, 80);
     for i in 0..n {
         let mut rng = ctx.rng.fork();
         let pool: [&str; 5] = ["a", "a2", "b", "c", "n"];
